@@ -65,9 +65,9 @@ def ground_obligations(ctx, tag, Q, nv, spin, feas, cost, strict, extra_assume=(
 
 
 def conv_forms(xs, spin_form):
-    """the same assignment as list / tuple / dict, in boolean or spin form"""
+    """the same assignment as list / tuple / dict (also with keys inserted in reverse order), in boolean or spin form"""
     vals = [1 - 2 * x for x in xs] if spin_form else list(xs)
-    return [('list', list(vals)), ('tuple', tuple(vals)), ('dict', dict(enumerate(vals)))]
+    return [('list', list(vals)), ('tuple', tuple(vals)), ('dict', dict(enumerate(vals))), ('dict-reversed', {i: vals[i] for i in range(len(vals) - 1, -1, -1)})]
 
 
 # ------------------------------------------------------------------------------------------------ SetCover
@@ -405,7 +405,8 @@ def make_asc(ctx, N, clen, pbc):
             want_valid = all(x == 1 for x in xs) or all(x == -1 for x in xs)
             for sf in (True, False):
                 vals = list(xs) if sf else [(1 - x) // 2 for x in xs]
-                for nm, form in (('list', list(vals)), ('tuple', tuple(vals)), ('dict', dict(enumerate(vals)))):
+                shuffled = {i: vals[i] for i in list(range(N))[::-1]}          # same assignment, keys inserted in reverse order
+                for nm, form in (('list', list(vals)), ('tuple', tuple(vals)), ('dict', dict(enumerate(vals))), ('dict (reverse insertion order)', shuffled)):
                     got = p.convert_solution(form, spin=sf)
                     checks.append(('convert_solution %s %s gives the spins' % (nm, 'spin' if sf else 'bool'), list(got.values() if isinstance(got, dict) else got) == list(xs)))
                     checks.append(('is_solution_valid %s %s' % (nm, 'spin' if sf else 'bool'), bool(p.is_solution_valid(form, spin=sf)) == want_valid))
@@ -444,7 +445,7 @@ def jobs(tier, seed):
             add('VertexCover/%s/%s' % (g, mode), 'make_vertexcover', dict(graph=g, mode=mode))
     for (m, N) in ([(1, 3), (2, 2)] + ([(2, 3)] if T else [])):
         add('BILP/m%d/N%d/strict' % (m, N), 'make_bilp', dict(m=m, N=N, mode='strict', R=2 if (T and (m, N) != (2, 3)) else 1))
-    for (nj, nw) in ([(2, 2)] + ([(3, 2), (2, 3)] if T else [])):
+    for (nj, nw) in ([(2, 2), (1, 2)] + ([(3, 2), (2, 3), (1, 3)] if T else [])):
         for log in (True, False):
             for mode in ('strict', 'default'):
                 add('JobSequencing/j%d/w%d/log=%d/%s' % (nj, nw, log, mode), 'make_jobseq', dict(njobs=nj, nworkers=nw, log=log, mode=mode, Lmax=2 if nj == 2 else 2))
